@@ -148,3 +148,54 @@ func c10AllKeysSpace(c *fw.Ctx) {
 			}
 		})
 }
+
+// c10KeyStructSpace: one *dns.DNSKEY value whose key material is replaced between Verify calls. A decoder that
+// remembers what it decoded for "this key" (by pointer, owner or tag) is invisible as long as every key lives in
+// its own struct; a validator that refreshes a DNSKEY it holds (key rollover) reuses the struct.
+func c10KeyStructSpace(c *fw.Ctx) {
+	pairs := [][2]string{{"rsasha256-1024", "rsasha256-2048"}, {"rsasha1-1024", "rsasha1-2048"}, {"rsasha512-1024", "rsasha512-2048"}, {"ecdsap256", "ecdsap256-d0"}, {"ecdsap384", "ecdsap384-d0"}, {"rsasha256-2048", "rsasha256-4096"}}
+	c.Space("key-struct-reuse", fmt.Sprintf("%d pairs (A, B) of fixed keys of one algorithm: one DNSKEY struct, every sequence of 3 steps over {material A, material B} × {RRSIG made with A, RRSIG made with B}; before each step the struct is overwritten with that key's fields (same pointer), then Verify is called: nil exactly when material and signature belong together, whatever was verified with that struct before; non-trivial: all", len(pairs)), true,
+		func(emit func(func(*fw.R))) {
+			for _, pr := range pairs {
+				pr := pr
+				emit(func(r *fw.R) {
+					r.Nontrivial()
+					var ks [2]*c10Key
+					for _, k := range c10Keys() {
+						for i := range pr {
+							if k.Name == pr[i] {
+								ks[i] = k
+							}
+						}
+					}
+					t := c10Types[c10TypeIdx("MX")[0]]
+					sym := c10Symbols(t, c10Owners[0], c10Variants[0])
+					rrset := []dns.RR{sym[1], sym[0]}
+					var sigs [2]*dns.RRSIG
+					for i, k := range ks {
+						// both signatures carry the key tag of their own key; Verify compares it with the struct's current tag
+						sigs[i] = &dns.RRSIG{KeyTag: k.DNSKEY.KeyTag(), SignerName: "example.", Algorithm: k.DNSKEY.Algorithm, Inception: c10Inception, Expiration: c10Expiration}
+						if err := c10Sign(sigs[i], k.Priv, rrset); err != nil {
+							r.Fail("sign/error", "Sign failed: %v; %s", err, c10Desc(k, sigs[i], rrset))
+							return
+						}
+					}
+					for seq := 0; seq < 64; seq++ {
+						key := dns.Copy(ks[0].DNSKEY).(*dns.DNSKEY)
+						var trace []string
+						for step := 0; step < 3; step++ {
+							mat, sg := (seq>>(2*step))&1, (seq>>(2*step+1))&1
+							*key = *ks[mat].DNSKEY // same struct (same pointer), new contents
+							err, _ := c10Verify(sigs[sg], key, rrset)
+							trace = append(trace, fmt.Sprintf("material %s + signature by %s → %v", pr[mat], pr[sg], err))
+							if (err == nil) != (mat == sg) {
+								r.Fail("verify/key-struct-reuse", "one DNSKEY struct overwritten before each Verify: step %d gives the wrong verdict: %v", step+1, trace)
+								break
+							}
+						}
+					}
+					r.Count("sequences", 64)
+				})
+			}
+		})
+}
